@@ -4,7 +4,7 @@
    lambda arguments sc; `compile` is op_t::compile; `parse`/`print` work on token lists.
    `ord` (hash-table order of balances) and `cp` (commodity display precision) are arbitrary. *)
 From LedgerV Require Import Base.Prelude Base.Round Model.Amount Model.Expr Proofs.ExprProofs Proofs.ParserProofs
-  Model.AmountText Model.ExprLex Proofs.ExprLexProofs Gen.TokenWords.
+  Model.AmountText Model.ExprLex Proofs.ExprLexProofs Gen.TokenWords Gen.IdentCapture.
 Local Open Scope Z_scope.
 
 (* ---- the parser implements the documented precedence grammar ----
@@ -151,6 +151,48 @@ Print Assumptions parameter_value_is_innermost_binding.
 Example shadowing_example : run false w_cp [] w_shadow = Ok (Some (XV (w_num 6))).
 Proof. vm_compute. reflexivity. Qed.
 
+(* ---- references to user-defined functions are bound where they are written (round 9).
+   `f(params) = body` enters a LAMBDA under f in the symbol table, newest first ... ---- *)
+Theorem function_definition_enters_table : forall ord cp n tbl ps f d0 params body c,
+  compile ord cp n tbl ps (OBin KLambda (match params with Some p => p | None => OPlug end) (Some body)) = Ok c ->
+  compile ord cp (S n) tbl ps (OBin KDefine (OBin KCall (OIdent f d0) params) (Some body)) =
+    Ok (mkC (OValue VVoid) true ((f, c_op c) :: c_tbl c)) /\
+  exists body', c_op c = OBin KLambda (match params with Some p => p | None => OPlug end) (Some body').
+Proof.
+  intros ord cp n tbl ps f d0 params body c H. split;
+    [exact (compile_define_fun ord cp n tbl ps f d0 params body c H)|exact (compiled_lambda_is_lambda ord cp n tbl ps _ body c H)].
+Qed.
+Print Assumptions function_definition_enters_table.
+
+(* ... and an identifier compiled while s names the function `l -> b` (s not a parameter in scope, not a built-in) IS that
+   function from then on: looking up what a call through it calls gives `l -> b`, and the call is the call of `l -> b`,
+   under ANY later symbol table tbl2 (s defined again after the reference was written) and in ANY argument frame sc (the
+   reference sits in a body that runs below a caller - or a caller's caller - one of whose parameters is called s,
+   whatever was passed for it): neither a later definition nor the parameter names of unrelated callers (alpha-renaming)
+   change what the body computes.  REQUIRES the two source facts regenerated by harness/translators/c15_ident_capture.py
+   (Gen/IdentCapture.v): op_t::compile copies EVERY definition it finds into the identifier (parameters first, then the
+   scope chain), and lookup_ident looks a name up at the time of use only when nothing (or a parameter PLUG) is attached. *)
+Theorem function_reference_is_bound_where_it_is_written :
+  src_ident_bound_at_compile = true /\ src_ident_late_lookup_only_unbound = true /\
+  forall ord cp n m tbl ps s l b tbl2 sc,
+  in_names s ps = false -> builtin_of s = None -> lookup s tbl = Some (OBin KLambda l b) ->
+  exists t, compile ord cp (S n) tbl ps (OIdent s None) = Ok (mkC t true tbl) /\
+            find_def ord cp (S (S m)) tbl2 sc t = Ok (OBin KLambda l b) /\
+            forall a, calc ord cp (S (S (S m))) tbl2 sc (OBin KCall t a) =
+                      calc ord cp (S (S (S m))) tbl2 sc (OBin KCall (OBin KLambda l b) a).
+Proof. split; [reflexivity|]. split; [reflexivity|]. exact function_reference_bound. Qed.
+Print Assumptions function_reference_is_bound_where_it_is_written.
+
+(* computed through the tokenizer: gn(va) = va + 1; fn(va) = gn(va) * 2 and then
+   hn(gn) = fn(1); hn((vz -> 1000))            is 4   (a caller's parameter is called gn)
+   gn(va) = va + 100; fn(1)                    is 4   (gn is defined again afterwards)
+   (gn -> fn(1) + gn(1))((vz -> 1000))         is 1004 (the lambda's own gn is its parameter, fn's gn is not) *)
+Example function_reference_examples :
+  run false w_cp [] (text_tokens [103; 110; 40; 118; 97; 41; 32; 61; 32; 118; 97; 32; 43; 32; 49; 59; 32; 102; 110; 40; 118; 97; 41; 32; 61; 32; 103; 110; 40; 118; 97; 41; 32; 42; 32; 50; 59; 32; 104; 110; 40; 103; 110; 41; 32; 61; 32; 102; 110; 40; 49; 41; 59; 32; 104; 110; 40; 40; 118; 122; 32; 45; 62; 32; 49; 48; 48; 48; 41; 41]) = Ok (Some (XV (w_num 4))) /\
+  run false w_cp [] (text_tokens [103; 110; 40; 118; 97; 41; 32; 61; 32; 118; 97; 32; 43; 32; 49; 59; 32; 102; 110; 40; 118; 97; 41; 32; 61; 32; 103; 110; 40; 118; 97; 41; 32; 42; 32; 50; 59; 32; 103; 110; 40; 118; 97; 41; 32; 61; 32; 118; 97; 32; 43; 32; 49; 48; 48; 59; 32; 102; 110; 40; 49; 41]) = Ok (Some (XV (w_num 4))) /\
+  run false w_cp [] (text_tokens [103; 110; 40; 118; 97; 41; 32; 61; 32; 118; 97; 32; 43; 32; 49; 59; 32; 102; 110; 40; 118; 97; 41; 32; 61; 32; 103; 110; 40; 118; 97; 41; 32; 42; 32; 50; 59; 32; 40; 103; 110; 32; 45; 62; 32; 102; 110; 40; 49; 41; 32; 43; 32; 103; 110; 40; 49; 41; 41; 40; 40; 118; 122; 32; 45; 62; 32; 49; 48; 48; 48; 41; 41]) = Ok (Some (XV (w_num 1004))).
+Proof. repeat split; vm_compute; reflexivity. Qed.
+
 (* ---- compile preserves values on the definition-free fragment; folding is sound ---- *)
 Theorem calc_compile : forall ord cp tbl,
   (forall s d, lookup s tbl = Some d -> d <> OPlug) ->
@@ -216,6 +258,16 @@ Proof.
          |exists w_cp, w_dyn; split; [exact by_name_variable_sees_callee_parameter|reflexivity]].
 Qed.
 Print Assumptions lexical_scoping_parameters_refuted.
+
+(* ---- finding F215: "what a function body defines is local to it" is FALSE of the faithful model - op_t::compile gives a
+   SCOPE body a bind_scope_t, whose define() writes into the enclosing scope as well, when the function is defined
+   (the model's single table).  Witnesses: vt = 1; fn(va) = (vt = 7; vt + 1); fn(2) + vt gives 15 (lexically 8 + 1 = 9), and
+   fn(va) = (vy = 7; vy + va); vy gives 7 although fn was never called and vy is unknown outside it. ---- *)
+Theorem lexical_scoping_local_definitions_refuted :
+  run false w_cp [] (text_tokens [118; 116; 32; 61; 32; 49; 59; 32; 102; 110; 40; 118; 97; 41; 32; 61; 32; 40; 118; 116; 32; 61; 32; 55; 59; 32; 118; 116; 32; 43; 32; 49; 41; 59; 32; 102; 110; 40; 50; 41; 32; 43; 32; 118; 116]) = Ok (Some (XV (w_num 15))) /\
+  run false w_cp [] (text_tokens [102; 110; 40; 118; 97; 41; 32; 61; 32; 40; 118; 121; 32; 61; 32; 55; 59; 32; 118; 121; 32; 43; 32; 118; 97; 41; 59; 32; 118; 121]) = Ok (Some (XV (w_num 7))).
+Proof. split; vm_compute; reflexivity. Qed.
+Print Assumptions lexical_scoping_local_definitions_refuted.
 
 (* ---- the tokenizer (token.cc; Model/ExprLex.v): `lex` reads the expression TEXT (byte list), the same bytes
    ledger gets.  ftok = the tokens with a fixed spelling: & && and | || or ( ) ! not != - -> + * ? : / div = == < <=
